@@ -30,6 +30,7 @@ import (
 	"github.com/markkurossi/mpc/circuit"
 	"github.com/markkurossi/mpc/ot"
 	"github.com/markkurossi/mpc/sha2pc"
+	"github.com/markkurossi/mpc/types"
 )
 
 func init() {
@@ -362,6 +363,17 @@ func runC17Child(c *Ctx) error {
 			opts.MinGates, opts.MaxGates = 150, 400
 		}
 		circ := GenCircuit(r, opts)
+		if round%3 == 1 {
+			// a struct-typed argument (main(g Garbler, ...) with type Garbler struct{...}): the
+			// argument list carries the flattened members in Compound
+			members := circ.Inputs
+			total := 0
+			for _, m := range members {
+				total += int(m.Type.Bits)
+			}
+			circ.Inputs = circuit.IO{{Name: "s", Type: types.Info{Type: types.TStruct, IsConcrete: true, Bits: types.Size(total)}, Compound: members}}
+			c.Hist("inputs:struct-argument")
+		}
 		key := r.Bytes(keyLens[round%3])
 		ni := circ.Inputs.Size()
 		M := r.Range(2, 8)
@@ -400,6 +412,13 @@ func runC17Child(c *Ctx) error {
 		var events []c17Event
 		logEv := func(e c17Event) { logMu.Lock(); events = append(events, e); logMu.Unlock() }
 		calls := make([][]*c17Call, M)
+		// Scratch identity in the ownership history is the ADDRESS of Garbled.scratch.  An
+		// address identifies a scratch only while the scratch cannot be collected: every handle
+		// of the round (released or not) therefore stays reachable until the history has been
+		// evaluated — otherwise the scratch of an unreleased handle whose goroutine has ended can
+		// be freed and a NEW scratch allocated at the same address, which reads as "one scratch,
+		// two live handles".  (Handles dropped on purpose are the business of c17Unreleased.)
+		keep := make([][]*c17Handle, M)
 		var failMu sync.Mutex
 		fail := func(key, what string, rep interface{}) { failMu.Lock(); c.Fail(key, what, rep); failMu.Unlock() }
 		// ---- prelude, sequential, as "goroutine" M: failing Garble calls (failing reader;
@@ -560,8 +579,8 @@ func runC17Child(c *Ctx) error {
 						}
 					}()
 				}
-				// handles stay referenced until the goroutine ends (no release = allowed)
-				_ = hs
+				// handles stay referenced until the history of the round has been evaluated
+				keep[t] = hs
 			}(t)
 		}
 		close(start)
@@ -680,6 +699,8 @@ func runC17Child(c *Ctx) error {
 			}
 		}
 		c.Case(L(I(1), I(M+1), L(evs...)), L(I(1), I(nextID), I(live)))
+		runtime.KeepAlive(keep)
+		runtime.KeepAlive(pre)
 		c.Hist(fmt.Sprintf("goroutines:%d", M))
 		c.Hist(fmt.Sprintf("scratch-reuse:%v", len(ids) < nGarble))
 		if round < 3 {
